@@ -257,9 +257,13 @@ class SubsetHooks(Hooks):
         return decide_with(interp, test, env, mod, facts=self.facts)
 
     def external(self, interp, name, args, kwargs, node, mod):
-        if name.endswith('.hstack') and len(args) == 1:
-            self.hstack.append(args[0])
+        if (name.endswith('.hstack') or name.endswith('.concatenate')) and len(args) == 1 and not kwargs:
             a = args[0]
+            if isinstance(a, (list, tuple)) and len(a) == 3:
+                # [lower, interior, upper]: a one-element list stands for its element
+                a = [interp._as_arr(x[0]) if isinstance(x, (list, tuple)) and len(x) == 1 else (interp._as_arr(x) if not isinstance(x, Arr) else x) for x in a]
+                a = [Arr((), x.poly, unit=x.unit) if isinstance(x, Arr) and x.dims == (None,) else x for x in a]
+            self.hstack.append(a)
             if isinstance(a, list) and len(a) == 3 and all(isinstance(x, Arr) for x in a):
                 return Arr(('h',), mk_fn('HSTACK', alg.L('h'), P(a[0].poly), B(a[1].dims[0] if a[1].dims else None, a[1].poly), P(a[2].poly)), unit=num(1))
             return Unk('hstack', node)
